@@ -61,8 +61,11 @@ def draw_config(rng, mode="bounded", allow_restart=False, faults=True):
     # state-aware bias towards jobs that something still refers to (a blocked waiter's list, a drop mark):
     # killing / re-adding / finishing exactly those is where incarnations get mixed up
     c["bias_refs"] = rng.random() < 0.5
+    c["near_ids"] = rng.random() < 0.15
     # a directed motif woven into the random steps of some runs (see QsRun._motif_step)
-    c["motif"] = {"drop": rng.random() < 0.6, "p": rng.choice([0.4, 0.7])} if rng.random() < 0.1 else None
+    c["motif"] = {"kind": rng.choice(["reincarnate", "reincarnate", "deadlines"]), "drop": rng.random() < 0.6,
+                  "p": rng.choice([0.4, 0.7]), "short": rng.choice([5, 60]), "restart": allow_restart} \
+        if rng.random() < 0.12 else None
     c["backdoor"] = rng.random() < 0.06  # deployment knob QSERVE_BACKDOOR
     c["faults"] = faults
     return c
@@ -225,6 +228,17 @@ class QsRun:
     def _sendable(self, names):
         return [n for n in names if self.sim.can_send(n)]
 
+    def _motif_new_add(self, timeout):
+        a = self._add_args()
+        a.pop("wait", None)
+        a["timeout"] = timeout
+        unused = [x for x in self.config.jobids if x not in self.model.jobs]
+        if unused:
+            a["jobid"] = self.rng.choice(unused)
+        else:
+            a.pop("jobid", None)
+        return a
+
     def _motif_step(self):
         """'A new incarnation under a waiter': [mark R for dropping;] a client waits for [M, R] and blocks
         on M; R is killed and added again under its id; M finishes and the waiter moves on to R.  Emitted
@@ -234,6 +248,23 @@ class QsRun:
         if not sendable:
             return None
         cid = self.sim.cid
+        if m.get("kind") == "deadlines":
+            # 'deadlines out of order across a restart': a job with a long time limit is added before
+            # one with a short limit, the server restarts, and the clock passes the short limit only
+            k = m["stage"]
+            m["stage"] += 1
+            if k in (0, 1):
+                return ["send", rng.choice(sendable), "qadd", self._motif_new_add(1200 if k == 0 else m["short"])]
+            if k == 2 and m.get("restart"):
+                return ["restart"]
+            if k == 3:
+                return ["jump", m["short"] + rng.choice([1, 10, 70])]
+            if k == 4:
+                return ["adv", 2]
+            if k >= 5:
+                self._motif_state = None
+                self.fault("motif-deadlines-out-of-order")
+            return None
         if m["stage"] == 0:
             live = sorted([j for j in model.jobs.values() if j.state != "d"], key=lambda j: j.serial)
             if len(live) < 2:
@@ -338,6 +369,9 @@ class QsRun:
         k = self._readd_candidate() if (channel is None and self._bias(0.5)) else None
         if k is not None:
             a["channel"], a["jobid"] = k.channel, k.jobid
+        elif c.get("near_ids") and rng.random() < 0.4:
+            # an explicit integer id at or just above the server's own counter: where ids it assigns itself go next
+            a["jobid"] = self.model.count + rng.choice([0, 1, 1, 2, 3])
         elif rng.random() >= c.p_noid:
             a["jobid"] = rng.choice(c.jobids)
         t = rng.choice(c.timeouts)
